@@ -216,19 +216,18 @@ structure JointData (E : P K × P K × P K → Prop) (e : Env K) (pt : Nat → P
       pt (k + 1) + (perp (eT pt k)).smul (ε * e.hwFw) - (eT pt k).smul (τ * e.hwFw),
       pt (k + 1) - (perp (eT pt (k + 1))).smul (ε * e.hwFw)) → Cov E q
 
-theorem joint_data {e : Env K} {eps : K} (h : CoverHyp e eps) {pt : Nat → P K} {n : Nat} (hr : Regime e eps pt n)
-    {o : Out K} (hE : Emitted e pt n o) (k : Nat) (hk : k + 1 < n) :
+/-- `JointData` from the closed form of the join, the unit tangents and the emitted join triangle -/
+theorem joint_data_of {e : Env K} {pt : Nat → P K} {o : Out K} (k : Nat)
+    (J : JClosed e pt k (psAt e pt (k + 1)) (nsAt e pt (k + 1)))
+    (hu0 : (eT pt k).sqLen = 1) (hu1 : (eT pt (k + 1)).sqLen = 1) (hjoin : EmJoin o (jEP e pt (k + 1))) :
     ∃ ε c σ τ κ : K, JointData (EmTri o) e pt k ε c σ τ κ := by
-  have J := regime_jclosed h hr k hk
-  obtain ⟨_, hu0, _⟩ := edge_eq h.sqrt_nonneg h.sqrt_sq pt k (regime_sq h hr k (by omega))
-  obtain ⟨_, hu1, _⟩ := edge_eq h.sqrt_nonneg h.sqrt_sq pt (k + 1) (regime_sq h hr (k + 1) hk)
   have hrot := rot_of_unit (eT pt k) (eT pt (k + 1)) hu0
   have hcs := cs_unit (eT pt k) (eT pt (k + 1)) hu0 hu1
   have hc := J.cpos
   have hcne : 1 + (eT pt k).dot (eT pt (k + 1)) ≠ 0 := ne_of_gt hc
   have htau : jtau pt k * (1 + (eT pt k).dot (eT pt (k + 1))) = (eT pt k).cross (eT pt (k + 1)) := by
     unfold jtau; exact div_mul_cancel₀ _ hcne
-  obtain ⟨j1, j2⟩ := hE.joins (k + 1) (by omega) hk
+  obtain ⟨j1, j2⟩ := hjoin
   generalize hps : psAt e pt (k + 1) = ps at J
   generalize hns : nsAt e pt (k + 1) = ns at J
   have hps' : (jEP e pt (k + 1)).pos.single.isSome = ps := hps
@@ -298,6 +297,14 @@ theorem joint_data {e : Env K} {eps : K} (h : CoverHyp e eps) {pt : Nat → P K}
         apply P.ext' <;> simp only [geom] <;> ring
       rw [e1, e2, e3] at hq
       exact inTri_swap12 hq
+
+theorem joint_data {e : Env K} {eps : K} (h : CoverHyp e eps) {pt : Nat → P K} {n : Nat} (hr : Regime e eps pt n)
+    {o : Out K} (hE : Emitted e pt n o) (k : Nat) (hk : k + 1 < n) :
+    ∃ ε c σ τ κ : K, JointData (EmTri o) e pt k ε c σ τ κ :=
+  joint_data_of k (regime_jclosed h hr k hk)
+    (edge_eq h.sqrt_nonneg h.sqrt_sq pt k (regime_sq h hr k (by omega))).2.1
+    (edge_eq h.sqrt_nonneg h.sqrt_sq pt (k + 1) (regime_sq h hr (k + 1) hk)).2.1
+    (hE.joins (k + 1) (by omega) hk)
 
 theorem tauAbs_nonneg (pt : Nat → P K) (n i : Nat) : 0 ≤ tauAbs pt n i := by
   unfold tauAbs; split_ifs
